@@ -1,1 +1,133 @@
-From Ase Require Import Model.Dump.
+(* C05: a sprite that loads is fully usable: after a successful load every accessor called
+   with in-range arguments returns normally and images have their documented dimensions. *)
+From Ase Require Import Base.Prelude Model.Dump Proofs.Layers Proofs.NoPanicLoad Proofs.Valid Proofs.NoPanicApi.
+
+(* a successful load establishes the invariant the renderer relies on (Proofs/Valid.v):
+   parents computed from the levels; every stored cel sits at the index of its own layer, below
+   the layer count; pixel counts equal width x height; indexed pixels have palette entries;
+   tilemap cels lie on tilemap layers whose tileset exists and has count x tile area pixels,
+   with every tile id below the tile count and tile sizes >= 1; link targets are in range and
+   not links *)
+Theorem C05_valid : forall (inflate : list Z -> Z -> zres) (bs : list Z) (f : file),
+  Forall is_byte bs -> load inflate bs = Ok f -> Valid f.
+Proof. exact load_valid. Qed.
+Print Assumptions C05_valid.
+
+(* ... and with an inflate that returns bytes, every stored channel value is a byte *)
+Theorem C05_valid_bytes : forall (inflate : list Z -> Z -> zres) (bs : list Z) (f : file),
+  (forall z n out, inflate z n = ZOk out -> Forall is_byte out) ->
+  Forall is_byte bs -> load inflate bs = Ok f -> ValidW is_byte f.
+Proof. exact load_valid_bytes. Qed.
+Print Assumptions C05_valid_bytes.
+
+(* layers: get, parent (a lower id), visibility (the ancestor walk terminates) *)
+Theorem C05_layers : forall (inflate : list Z -> Z -> zres) (bs : list Z) (f : file),
+  Forall is_byte bs -> load inflate bs = Ok f ->
+  forall i, 0 <= i < num_layers f ->
+    (exists l, layer_get f i = Ok l) /\
+    (exists o, layer_parent f i = Ok o /\ forall p, o = Some p -> 0 <= p < i) /\
+    (exists b, layer_is_visible f i = Ok b).
+Proof. exact loaded_layers. Qed.
+Print Assumptions C05_layers.
+
+(* cels by the three routes, for any file *)
+Theorem C05_cels : forall (f : file) (fr l : Z),
+  0 <= fr < num_frames f -> 0 <= l < num_layers f ->
+  (forall route, route_cel f route fr l = Ok (fr, l)) /\
+  (exists c, cel_lookup f fr l = Ok c) /\
+  (exists b, cel_is_empty f (fr, l) = Ok b) /\ (exists u, cel_user_data f (fr, l) = Ok u) /\
+  (exists xy, cel_top_left f (fr, l) = Ok xy) /\ (exists b, cel_is_tilemap f (fr, l) = Ok b).
+Proof. exact loaded_cels. Qed.
+Print Assumptions C05_cels.
+
+(* the whole STRUCT walk of Model/Dump.v: sizes, frame durations, layers with parents and
+   visibility, tags, slices, user data, palette, external files, tilesets, lookups *)
+Theorem C05_struct : forall (inflate : list Z -> Z -> zres) (bs : list Z) (f : file),
+  Forall is_byte bs -> load inflate bs = Ok f -> exists ls, section_struct f = Ok ls.
+Proof. exact loaded_struct. Qed.
+Print Assumptions C05_struct.
+
+(* Frame::image: the documented size; the only way not to return is inside blend (site 302),
+   which is the subject of C17 *)
+Theorem C05_frame_image : forall (inflate : list Z -> Z -> zres) (bs : list Z) (f : file),
+  Forall is_byte bs -> load inflate bs = Ok f ->
+  forall fr, 0 <= fr < num_frames f ->
+    (exists img, frame_image f fr = Ok img /\ iw img = f_width f /\ ih img = f_height f) \/
+    frame_image f fr = Panic 302.
+Proof. exact loaded_frame_image. Qed.
+Print Assumptions C05_frame_image.
+
+(* Cel::image / AsepriteFile::layer_image, for any layer index *)
+Theorem C05_cel_image : forall (inflate : list Z -> Z -> zres) (bs : list Z) (f : file),
+  Forall is_byte bs -> load inflate bs = Ok f ->
+  forall fr l, 0 <= fr < num_frames f ->
+    (exists img, cel_image f (fr, l) = Ok img /\ iw img = f_width f /\ ih img = f_height f) \/
+    cel_image f (fr, l) = Panic 302.
+Proof. exact loaded_cel_image. Qed.
+Print Assumptions C05_cel_image.
+
+(* with blend total on byte pixels for the blend modes in Mok (C17 provides this for the
+   integer modes and soft light; for the four HSL modes under its guard), an inflate that returns
+   bytes, and layers that use only those modes: rendering always returns, and returns bytes *)
+Theorem C05_frame_image_total : forall (Mok : Z -> Prop),
+  (forall m b s o, Mok m -> pix_wf b -> pix_wf s -> is_byte o -> exists p, blend m b s o = Some p /\ pix_wf p) ->
+  forall (inflate : list Z -> Z -> zres),
+  (forall z n out, inflate z n = ZOk out -> Forall is_byte out) ->
+  forall (bs : list Z) (f : file),
+  Forall is_byte bs -> load inflate bs = Ok f ->
+  (forall i l, aget (f_layers f) i = Some l -> Mok (l_blend l)) ->
+  forall fr, 0 <= fr < num_frames f ->
+    exists img, frame_image f fr = Ok img /\ (iw img = f_width f /\ ih img = f_height f) /\
+                forall x y, pix_wf (img_get img x y).
+Proof. exact loaded_frame_image_total. Qed.
+Print Assumptions C05_frame_image_total.
+
+Theorem C05_cel_image_total : forall (Mok : Z -> Prop),
+  (forall m b s o, Mok m -> pix_wf b -> pix_wf s -> is_byte o -> exists p, blend m b s o = Some p /\ pix_wf p) ->
+  forall (inflate : list Z -> Z -> zres),
+  (forall z n out, inflate z n = ZOk out -> Forall is_byte out) ->
+  forall (bs : list Z) (f : file),
+  Forall is_byte bs -> load inflate bs = Ok f ->
+  (forall i l, aget (f_layers f) i = Some l -> Mok (l_blend l)) ->
+  forall fr l, 0 <= fr < num_frames f ->
+    exists img, cel_image f (fr, l) = Ok img /\ (iw img = f_width f /\ ih img = f_height f) /\
+                forall x y, pix_wf (img_get img x y).
+Proof. exact loaded_cel_image_total. Qed.
+Print Assumptions C05_cel_image_total.
+
+(* AsepriteFile::tilemap for ANY layer and frame arguments; on its result the offsets, the
+   tile lookup at ANY coordinates, and the image *)
+Theorem C05_tilemap : forall (inflate : list Z -> Z -> zres) (bs : list Z) (f : file),
+  Forall is_byte bs -> load inflate bs = Ok f ->
+  forall l fr,
+  exists o, tilemap_of f l fr = Ok o /\
+    forall t, o = Some t ->
+      (exists xy, tilemap_pixel_offsets f t = Ok xy) /\ (exists xy, tilemap_tile_offsets f t = Ok xy) /\
+      (forall x y, exists id, tilemap_tile f t x y = Ok id) /\
+      ((exists img, tilemap_image f t = Ok img /\ iw img = f_width f /\ ih img = f_height f) \/
+       tilemap_image f t = Panic 302).
+Proof. exact loaded_tilemap. Qed.
+Print Assumptions C05_tilemap.
+
+(* Tilemap::tile is total in its coordinates *)
+Theorem C05_tile_lookup_total : forall (W : Z -> Prop) (f : file), ValidW W f ->
+  forall t x y, tilemap_wf f t -> exists id, tilemap_tile f t x y = Ok id.
+Proof. exact tilemap_tile_ok. Qed.
+Print Assumptions C05_tile_lookup_total.
+
+(* Tileset::tile_image: one tile, tile_width x tile_height *)
+Theorem C05_tile_image : forall (inflate : list Z -> Z -> zres) (bs : list Z) (f : file),
+  Forall is_byte bs -> load inflate bs = Ok f ->
+  forall k ts i, zfind k (f_tilesets f) = Some ts -> 0 <= i < ts_count ts ->
+    exists r, tile_image ts i = Ok r /\ rw r = ts_w ts /\ rh r = ts_h ts /\ zlen (rpx r) = ts_w ts * ts_h ts.
+Proof. exact loaded_tile_image. Qed.
+Print Assumptions C05_tile_image.
+
+(* Tileset::image: all tiles stacked, tile_width x (tile_height * tile_count) *)
+Theorem C05_tileset_image : forall (inflate : list Z -> Z -> zres) (bs : list Z) (f : file),
+  Forall is_byte bs -> load inflate bs = Ok f ->
+  forall k ts, zfind k (f_tilesets f) = Some ts ->
+    exists r, tileset_image ts = Ok r /\ rw r = ts_w ts /\ rh r = ts_h ts * ts_count ts /\
+              zlen (rpx r) = ts_w ts * (ts_h ts * ts_count ts).
+Proof. exact loaded_tileset_image. Qed.
+Print Assumptions C05_tileset_image.
